@@ -35,6 +35,7 @@ def run(ctx):
     # oracle: the statement itself on ahbicht
     n_nontrivial, seen = 0, set()
     n_fed = 0
+    n_rc_level = 0
     for (t, rho), (tag, v) in zip(cases, raws):
         if not (exprs.dom(t) and exprs.valid(t)):
             continue
@@ -58,6 +59,18 @@ def run(ctx):
         if (fx is None) != (want is None):
             ctx.fail(f"presence|{key}", desc, f"reading {want}", f"collected expression {fx!r}", "oracle: an expression is collected iff the direct reading is non-empty")
             continue
+        # the same at the entry point users call: requirement_constraint_evaluation reports the collected expression of the root node, whatever the outcome
+        # (also an undetermined one: what was and-ed in or attached to a fulfilled operand still takes part)
+        if n_rc_level < (2500 if ctx.quick else 40000):
+            n_rc_level += 1
+            evalimpl.set_cer(rc=rho, hints=evalcorr.default_hints([k for k in exprs.leaves(t) if exprs.kind(k) == "hint"]),
+                             fc={k: (True, None) for k in exprs.leaves(t) if exprs.kind(k) == "fc"})
+            tag3, v3 = evalimpl.outcome(lambda: evalimpl.rc_evaluation(evalcorr.to_lark(t)))
+            fx3 = getattr(v3, "format_constraints_expression", None) if tag3 == "ok" else f"raises {v3}"
+            if fx3 != fx:
+                ctx.fail(f"reported|{key}", desc, f"the collected expression of the evaluated tree: {fx!r} (reading {want})", f"requirement_constraint_evaluation reports {fx3!r}",
+                         "oracle: requirement_constraint_evaluation reports the collected format-constraint expression, for every requirement outcome")
+                continue
         if fx is None:
             continue
         n_nontrivial += 1
